@@ -50,30 +50,117 @@ def is_alloc_term(f, alloc, t, closures):
     return True
 
 
-def rule_nz(R):
+def clause_nonzero(R, prefix):
+    """the allocator never hands out 0 (shared with C01: a PUBLISH/SUBSCRIBE/UNSUBSCRIBE with identifier 0 is malformed)"""
     f = R.f
     alloc = outq.allocator(f)
+    cname, cty = outq.counter_field(f)
     R.touch(alloc)
     rets = []
     for alt in phi_alts(alloc.local_term(0)):
         rets.append(alt)
     def is_nz(t, depth=0):
         t = peel(t)
-        if is_call(t, "NonZero::<T>::get", "NonZero::<u16>::get") and chain(t[3][0])[1] == ["packet_id"]:
+        if is_call(t, "NonZero::<T>::get", "NonZero::<u16>::get") and chain(t[3][0])[1] == [cname]:
             return True
         if t[0] == "call" and t[2] in f.bodies and depth < 3:
             hb = f.bodies[t[2]]
             return all(is_nz(a, depth + 1) for a in phi_alts(hb.local_term(0)))
         return False
-    ok = bool(rets) and all(is_nz(a) for a in rets)
-    R.ob("nz/returns-nonzero", ok,
-         "the allocator returns NonZeroU16::get of the session's counter (found %s)" % show(alloc.local_term(0)), where=alloc.span)
-    fld = None
-    for v in f.adts.get(SDATA, {}).get("variants", [{}])[0].get("fields", []):
-        if v["name"] == "packet_id":
-            fld = v["ty"]
-    R.ob("nz/counter-type", fld is not None and "NonZero" in fld,
-         "the counter is a NonZeroU16, so no stored successor can be 0 (type %s)" % fld)
+    by_type = bool(rets) and all(is_nz(a) for a in rets) and "NonZero" in cty
+    guarded = False
+    if not by_type:
+        # a plain integer counter: the value handed out must have passed a `!= 0` test on every path
+        ret_locals = set()
+        for bb, j, s in alloc.assigns():
+            if s["dst"]["l"] == 0 and not s["dst"]["proj"] and "use" in s["rv"]:
+                ret_locals.add(root_local(alloc, s["rv"]["use"]))
+        edges = []
+        for bb in alloc.switches:
+            if bb not in alloc.reachable:
+                continue
+            si = alloc.switch_info(bb)
+            sj = peel(si["subject"])
+            if sj[0] == "bin" and sj[1] in ("Eq", "Ne"):
+                x, y = peel(sj[2]), peel(sj[3])
+                for u, v in ((x, y), (y, x)):
+                    if v[0] == "const" and v[2] == 0 and any(same_value(alloc, u, l) for l in ret_locals if l is not None):
+                        e = si["edges"].get(sj[1] == "Ne")
+                        if e is not None:
+                            edges.append((bb, e))
+        guarded = bool(edges) and None not in ret_locals and alloc.must_pass([0], alloc.returns, via_edges=edges)[0]
+    if not by_type and not guarded:
+        # third form: the stored counter itself is never 0 (every store to it is a non-zero constant, or a value on the
+        # non-zero edge of a test of that value) and the allocator returns the stored counter
+        def load_of_counter(t):
+            t = peel(t)
+            return t[0] == "field" and t[2] == cname and t[3] == SDATA
+        returns_counter = bool(rets) and all(load_of_counter(a) for a in rets)
+        inv = returns_counter
+        nst = 0
+        for (b2, bb2, j2, dst2, rv2, s2, final2) in f.field_stores(SDATA, cname):
+            nst += 1
+            if "use" not in rv2 or not _nonzero_operand(b2, bb2, rv2["use"], 0):
+                inv = False
+        for b2 in f.bodies.values():
+            for bb2, j2, s2 in b2.assigns():
+                rv2 = s2["rv"]
+                if "agg" in rv2 and rv2["agg"].get("adt") == SDATA:
+                    t2 = b2.rvalue_term(rv2)
+                    v2 = dict(zip(t2[4], t2[5])).get(cname)
+                    if v2 is None or peel(v2)[0] != "const" or peel(v2)[2] in (0, None):
+                        inv = False
+        guarded = inv and nst >= 1
+    R.ob("%s/returns-nonzero" % prefix, by_type or guarded,
+         "the allocator returns NonZeroU16::get of the session's counter, or a value it tested against 0 (found %s)"
+         % show(alloc.local_term(0)), where=alloc.span)
+    R.ob("%s/counter-type" % prefix, "NonZero" in cty or guarded,
+         "the counter `%s` is a NonZeroU16, so no stored successor can be 0 -- or every value handed out is tested against 0 "
+         "(type %s)" % (cname, cty))
+
+
+def _nonzero_operand(body, bb, op, depth):
+    """operand `op`, used in block bb, is provably non-zero: a non-zero constant, or (a copy of) a local that was tested
+    against 0 on every path to its use"""
+    if depth > 6:
+        return False
+    c = op.get("const")
+    if c is not None:
+        return c.get("value") not in (0, None)
+    pl = op.get("copy") or op.get("move")
+    if pl is None or pl["proj"]:
+        return False
+    l = pl["l"]
+    lt = peel(body.local_term(l))
+    # tested: a switch on this very value whose 0 edge leads elsewhere dominates bb
+    for sb in body.switches:
+        if sb not in body.reachable:
+            continue
+        si = body.switch_info(sb)
+        if si["enum"] is None and 0 in si["edges"] and si.get("otherwise") is not None and peel(si["subject"]) == lt \
+                and lt[0] != "phi" and body.must_pass([0], [bb], via_edges=[(sb, si["otherwise"])])[0]:
+            return True
+    ds = body.defs().get(l, [])
+    if not ds:
+        return False
+    for d in ds:
+        if d[0] != "stmt":
+            return False
+        rv = body.blocks[d[1]]["stmts"][d[2]]["rv"]
+        if "use" not in rv or not _nonzero_operand(body, d[1], rv["use"], depth + 1):
+            return False
+    return True
+
+
+def same_value(body, term, local):
+    """term is (a copy of) the current value of `local`"""
+    t = peel(term)
+    lt = peel(body.local_term(local))
+    return t == lt
+
+
+def rule_nz(R):
+    clause_nonzero(R, "nz")
 
 
 def rule_src(R):
@@ -181,7 +268,16 @@ def rule_fresh(R):
              "skipped" % q, where=alloc.span)
 
 
+def rule_tables(R):
+    """(fresh) consults the retained list and the release list: they must still hold every operation that waits for its
+    final acknowledgement, i.e. an acknowledgement removes the entry it names and no other (shared with C02 / C03)"""
+    f = R.f
+    outq.clause_removal_index(R, "tables/retained-removes-the-acknowledged-entry", outq.role_fn(f, "retained_removal"), "retained")
+    outq.clause_removal_index(R, "tables/release-removes-the-acknowledged-entry", outq.role_fn(f, "release_removal"), "pending_release")
+
+
 def run(R):
+    R.rule("tables", rule_tables)
     R.rule("nz", rule_nz)
     R.rule("src", rule_src)
     R.rule("fresh", rule_fresh)
